@@ -1,6 +1,7 @@
 import IceProofs.CandTextParseWF
 import IceProofs.AttrCodec
 import IceSpec.C16
+import IceTie.CandEqual
 /-!
 # C16 — candidate and attribute wire formats round-trip; equality is lawful
 
@@ -401,5 +402,79 @@ example : extensionsEqual [([1], [2]), ([3], [])] [([3], []), ([1], [2])] = true
 example : decNomination [0, 0, 0, 1, 9] = some 1 := by decide  -- S3: a 5-byte value is accepted
 example : decPriority (encPriority 4294967295) = some 4294967295 := by decide
 example : encAck [1, 2, 3, 4, 5] = none := by decide
+
+/-! ### code ties (T): the equality functions are REGENERATED from candidate_base.go / candidaterelatedaddress.go /
+addr.go on every run (`IceGen.T_Cand`) and proved equal to the model's (`IceTie/CandEqual.lean`) -/
+
+/-- `sameAddressLiteral` (candidate_base.go) with `netip.ParseAddr` failing iff `env.canon` is `none` and the
+comparison of the two `canonicalAddr`s being the comparison of the keys is the model's `sameAddressLiteral` -/
+theorem C16_code_sameAddressLiteral (env : Env) (a b : Str) :
+    IceGen.sameAddressLiteral (a == b) (env.canon a).isNone (env.canon b).isNone (env.canon a == env.canon b)
+      = sameAddressLiteral env a b :=
+  IceTie.CandEqual.sameAddressLiteral_tie env a b
+
+/-- `candidateBase.Equal` ∘ `transportAddressEqual` ∘ `sameAddressLiteral` ∘ `CandidateRelatedAddress.Equal`,
+composed as the code composes them, on two DISTINCT candidate objects (the interface values `c.addr()` and
+`other.addr()` are equal only when both are nil) is the model's `equal` — every environment, every two candidates
+whose ports are Go `int`s -/
+theorem C16_code_equal (env : Env) (c o : Cand) (hpc : c.port < 2 ^ 63) (hpo : o.port < 2 ^ 63)
+    (hrc : ∀ v, c.related = some v → v.2 < 2 ^ 63) (hro : ∀ v, o.related = some v → v.2 < 2 ^ 63) :
+    IceGen.candidateBase_Equal
+        (IceGen.candidateBase_transportAddressEqual (!((resolved env c).isNone && (resolved env o).isNone))
+          (resolved env c).isNone (resolved env o).isNone
+          (resolved env c == resolved env o) (IceTie.CandEqual.netCode c.net) (IceTie.CandEqual.netCode o.net)
+          (IceGen.sameAddressLiteral (c.address == o.address) (env.canon c.address).isNone (env.canon o.address).isNone
+            (env.canon c.address == env.canon o.address))
+          (Int64.ofNat c.port) (Int64.ofNat o.port) (IceTie.CandEqual.ttCode c.tcpType) (IceTie.CandEqual.ttCode o.tcpType))
+        (IceTie.CandEqual.tyCode c.typ) (IceTie.CandEqual.tyCode o.typ)
+        (IceGen.candidateRelatedAddress_Equal c.related.isNone o.related.isNone
+          ((c.related.getD ([], 0)).1 == (o.related.getD ([], 0)).1)
+          (Int64.ofNat (c.related.getD ([], 0)).2) (Int64.ofNat (o.related.getD ([], 0)).2))
+      = equal env c o := by
+  apply IceTie.CandEqual.equal_tie env c o _ _ _ hpc hpo hrc hro
+  · intro h1 h2; simp [h1, h2]
+  · intro h
+    cases h1 : resolved env c <;> cases h2 : resolved env o <;> simp [h1, h2] at h ⊢
+
+/-- the same for a candidate compared with ITSELF (one object: `c.addr() != other.addr()` is false) -/
+theorem C16_code_equal_self (env : Env) (c : Cand) (hpc : c.port < 2 ^ 63)
+    (hrc : ∀ v, c.related = some v → v.2 < 2 ^ 63) :
+    IceGen.candidateBase_Equal
+        (IceGen.candidateBase_transportAddressEqual false
+          (resolved env c).isNone (resolved env c).isNone
+          (resolved env c == resolved env c) (IceTie.CandEqual.netCode c.net) (IceTie.CandEqual.netCode c.net)
+          (IceGen.sameAddressLiteral (c.address == c.address) (env.canon c.address).isNone (env.canon c.address).isNone
+            (env.canon c.address == env.canon c.address))
+          (Int64.ofNat c.port) (Int64.ofNat c.port) (IceTie.CandEqual.ttCode c.tcpType) (IceTie.CandEqual.ttCode c.tcpType))
+        (IceTie.CandEqual.tyCode c.typ) (IceTie.CandEqual.tyCode c.typ)
+        (IceGen.candidateRelatedAddress_Equal c.related.isNone c.related.isNone
+          ((c.related.getD ([], 0)).1 == (c.related.getD ([], 0)).1)
+          (Int64.ofNat (c.related.getD ([], 0)).2) (Int64.ofNat (c.related.getD ([], 0)).2))
+      = true := by
+  rw [IceTie.CandEqual.equal_tie env c c false (fun _ _ => rfl) (fun _ => rfl) hpc hpc hrc hrc]
+  exact equal_refl env c
+
+/-- `canonicalAddr` (addr.go), the function `Env.canon` stands for after `ParseAddr`: unmap, then keep the zone
+exactly on an IPv6 link-local address; `addrPortEqual` needs both sides valid -/
+theorem C16_code_canonicalAddr {α : Type} (unmap : α → α) (isLL : α → Bool) (noZone : α → α) (addr : α) :
+    IceGen.canonicalAddr α unmap isLL noZone addr = (if isLL (unmap addr) then unmap addr else noZone (unmap addr)) ∧
+    (∀ av bv same, IceGen.addrPortEqual av bv same = (av && bv && same)) :=
+  ⟨IceTie.CandEqual.canonicalAddr_tie unmap isLL noZone addr, IceTie.CandEqual.addrPortEqual_tie⟩
+
+/-- non-vacuity: the hypotheses of `C16_code_equal` hold for the example candidates; the regenerated functions on
+concrete atoms; a toy `netip.Addr` (4-in-6 flag, link-local flag, zone) under `canonicalAddr` -/
+example : exHost.port < 2 ^ 63 ∧ ∀ v, exSrflx.related = some v → v.2 < 2 ^ 63 := by decide
+example : IceGen.sameAddressLiteral false false false true = true ∧ IceGen.sameAddressLiteral false true false true = false ∧
+    IceGen.sameAddressLiteral true true true false = true := by decide
+example : IceGen.candidateBase_transportAddressEqual true false false true 1 1 true 5 5 0 0 = true ∧
+    IceGen.candidateBase_transportAddressEqual true false false false 1 1 true 5 5 0 0 = false ∧
+    IceGen.candidateBase_transportAddressEqual true true false true 1 1 true 5 5 0 0 = false ∧
+    IceGen.candidateBase_transportAddressEqual false true true false 1 1 true 5 6 0 0 = false := by decide
+example : IceGen.candidateRelatedAddress_Equal true true false 1 2 = true ∧
+    IceGen.candidateRelatedAddress_Equal true false true 1 1 = false := by decide
+example : IceGen.canonicalAddr (Bool × Bool × Nat) (fun a => (false, a.2)) (fun a => a.2.1) (fun a => (a.1, a.2.1, 0))
+      (true, false, 7) = (false, false, 0) ∧
+    IceGen.canonicalAddr (Bool × Bool × Nat) (fun a => (false, a.2)) (fun a => a.2.1) (fun a => (a.1, a.2.1, 0))
+      (false, true, 7) = (false, true, 7) := by decide
 
 end IceProps.C16
